@@ -20,7 +20,10 @@ RULE = ("per scenario a fresh ASan+UBSan daemon (leak check at SIGTERM) with a b
         "hang-up in that state (the dead connection must be dropped and the idle bus must not burn CPU), more silent connections than max_incomplete_connections, close after every prefix of a valid session, "
         "argument-level fuzzing of every driver method. After every step a bystander round-trip through the bus must "
         "return the right token; a hostile that sent a complete invalid message must see EOF; the invalid message's "
-        "marker must never appear at any other client; at the end the idle daemon must not burn CPU. distinct = (attack "
+        "marker must never appear at any other client; at the end the idle daemon must not burn CPU. Four scenarios in ten also listen on "
+        "loopback TCP (ANONYMOUS allowed) and about half of their hostile connections come in over TCP. Nonce-tcp part: buses with a nonce-tcp "
+        "listener and hostile TCP connections that send no nonce / a part of it / a wrong one / the right one followed by garbage or a close, "
+        "with a bystander on the unix socket of the same bus and a well-behaved nonce client as positive control. distinct = (attack "
         "class, oracle verdict/reason, outcome)")
 
 ECHO = b"com.example.Echo"
@@ -63,9 +66,22 @@ class Scenario(object):
         self.limits = {"max_incomplete_connections": rng.choice([2, 4, 8]), "auth_timeout": rng.choice([400, 800]),
                        "max_message_size": rng.choice([65536, 1 << 20]), "max_incoming_bytes": 1 << 22,
                        "max_outgoing_bytes": 1 << 22}
-        self.daemon = busproc.Daemon(self.b, self.rundir, busproc.make_config("@SOCK@", limits=self.limits), name="s%d" % self.sid)
+        # four scenarios in ten: the bus also listens on TCP (loopback; EXTERNAL and ANONYMOUS allowed), and about half of the hostile
+        # connections of such a scenario come in over TCP - no socket credentials, another accept path; the bystanders stay on unix
+        self.tcp_addr = None
+        extra = ""
+        if rng.random() < 0.4:
+            extra = ("  <listen>tcp:host=127.0.0.1,port=0</listen>\n  <auth>EXTERNAL</auth>\n  <auth>ANONYMOUS</auth>\n"
+                     "  <allow_anonymous/>")
+        self.daemon = busproc.Daemon(self.b, self.rundir, busproc.make_config("@SOCK@", limits=self.limits, extra=extra),
+                                     name="s%d" % self.sid, print_address=bool(extra), env={"TMPDIR": self.rundir})
         if not self.daemon.started():
             raise RuntimeError("daemon did not start: " + self.daemon.stderr_text()[-400:])
+        if extra:
+            for t, kv in self.daemon.addresses():
+                if t == "tcp":
+                    self.tcp_addr = ("127.0.0.1", int(kv["port"]))
+            self.part.count("scenarios-with-tcp-listener" if self.tcp_addr else "tcp-listener-address-not-found")
         self.b1 = client.connect(self.daemon.sock, self.clock)
         self.b2 = client.connect(self.daemon.sock, self.clock)
         self.obs = client.connect(self.daemon.sock, self.clock)
@@ -126,8 +142,10 @@ class Scenario(object):
     def hostile(self, hello=True):
         # a new connection may be turned away while connections of an earlier attack are still being torn down
         # (limits on unauthenticated connections): try again a few times before treating it as the bus not serving
+        over_tcp = self.tcp_addr is not None and self.rng.random() < 0.5
         for attempt in range(6):
-            h = client.Client(self.daemon.sock, self.clock)
+            h = client.Client(self.tcp_addr if over_tcp else self.daemon.sock, self.clock)
+            self.part.count("hostile-connections:" + ("tcp" if over_tcp else "unix")) if attempt == 0 else None
             try:
                 h.auth()
                 if hello:
@@ -351,8 +369,12 @@ class Scenario(object):
                         "half-auth-silence", "junk-commands", "junk-commands", "junk-commands"])
         self.steps.append("preauth %s" % k)
         self.part.count("attack:preauth")
-        s = socket.socket(socket.AF_UNIX, socket.SOCK_STREAM)
-        client._connect_retry(s, self.daemon.sock)
+        if self.tcp_addr is not None and rng.random() < 0.5:
+            s = client.connect_as(self.tcp_addr)
+            self.part.count("preauth-over-tcp")
+        else:
+            s = socket.socket(socket.AF_UNIX, socket.SOCK_STREAM)
+            client._connect_retry(s, self.daemon.sock)
         s.settimeout(client.WATCHDOG)
         try:
             if k == "garbage":
@@ -682,7 +704,152 @@ def _run_one(b, rundir, seed, shard, i, part, skip):
     return None
 
 
+# ======================================================================================= nonce-tcp listener
+# A bus that listens on nonce-tcp reads a 16-byte nonce from every new connection before anything else.  Hostile clients of
+# this part attack exactly that step.  The bystander sits on the unix socket of the same bus.
+
+def nonce_case(b, rundir, rng, part, cid):
+    import urllib.parse
+    extra = ("  <listen>nonce-tcp:host=127.0.0.1,port=0</listen>\n  <auth>EXTERNAL</auth>\n  <auth>ANONYMOUS</auth>\n  <allow_anonymous/>")
+    d = busproc.Daemon(b, rundir, busproc.make_config("@SOCK@", extra=extra), name="n%d" % cid, print_address=True, env={"TMPDIR": rundir})
+    wit = {"part": "nonce-tcp", "case": cid, "steps": []}
+    held = []
+
+    def violation(key, what):
+        part.violation("%s:%s" % (PROP, key), what, dict(wit))
+
+    try:
+        if not d.started():
+            part.inconclusive.append("nonce-tcp case: daemon did not start: " + d.stderr_text()[-200:])
+            return
+        port = nonce = None
+        for t, kv in d.addresses():
+            if t == "nonce-tcp":
+                port = int(kv["port"])
+                nonce = open(urllib.parse.unquote(kv["noncefile"]), "rb").read()
+        if port is None or nonce is None or len(nonce) != 16:
+            part.inconclusive.append("nonce-tcp case: no nonce-tcp address printed")
+            return
+        b1 = client.connect(d.sock)
+        held.append(b1)
+
+        def raw():
+            s = socket.socket(socket.AF_INET, socket.SOCK_STREAM)
+            s.connect(("127.0.0.1", port))
+            held.append(s)
+            return s
+
+        def served(limit):
+            try:
+                r = b1.bus_call(b"GetId", timeout=limit)
+                return r.msg.type == 2
+            except client.Timeout:
+                return False
+
+        attacks = ["positive", "wrong-nonce", "no-nonce", "partial-nonce", "nonce-then-garbage", "nonce-then-close", "prefix-then-close", "positive"]
+        rng.shuffle(attacks)
+        for a in attacks[:rng.randint(4, 8)]:
+            wit["steps"].append(a)
+            part.count("nonce-tcp:attack:" + a)
+            part.evaluations += 1
+            if a == "positive":
+                try:
+                    c = client.Client(("127.0.0.1", port, nonce))
+                    held.append(c)
+                    c.auth()
+                    ok = c.hello().msg.type == 2 and c.bus_call(b"GetId").msg.type == 2
+                    c.close()
+                except (client.Closed, client.Timeout, OSError):
+                    ok = False
+                if not ok:
+                    violation("nonce-tcp:well-behaved-client-not-served", "a client that presented the right nonce could not register and call the bus")
+                else:
+                    part.count("nonce-tcp:well-behaved-client-served")
+            elif a in ("no-nonce", "partial-nonce"):
+                s = raw()
+                if a == "partial-nonce":
+                    s.sendall(nonce[:rng.randint(1, 15)])
+                time.sleep(0.3)
+                if served(3.0):
+                    part.count("nonce-tcp:served-while-a-connection-withholds-its-nonce")
+                else:
+                    violation("stall:nonce-tcp:%s" % a, "while one TCP connection had sent %s and stayed silent, a bystander on the unix socket of the "
+                              "same bus got no answer to GetId within 3 s" % ("nothing" if a == "no-nonce" else "a part of the nonce"))
+                s.close()
+                # bounded progress once the silent connection is gone: the bus must be back (and answer the call it had missed)
+                try:
+                    b1.barrier()
+                    part.count("nonce-tcp:recovered-after-close")
+                except (client.Timeout, client.Closed):
+                    violation("stall:nonce-tcp:not-recovered-after-the-silent-connection-closed",
+                              "the bus did not answer the bystander even after the silent TCP connection had been closed")
+                    return
+            else:
+                s = raw()
+                try:
+                    if a == "wrong-nonce":
+                        bad = bytes(x ^ 0x55 for x in nonce)
+                        s.sendall(bad + b"\0AUTH ANONYMOUS 76\r\nBEGIN\r\n")
+                    elif a == "nonce-then-garbage":
+                        s.sendall(nonce + bytes(rng.getrandbits(8) for _ in range(rng.choice([1, 40, 3000]))))
+                    elif a == "nonce-then-close":
+                        s.sendall(nonce)
+                    else:
+                        s.sendall(nonce[:rng.randint(0, 15)])
+                except OSError:
+                    pass
+                if a in ("nonce-then-close", "prefix-then-close"):
+                    s.close()
+                if not served(client.WATCHDOG):
+                    violation("stall:nonce-tcp:%s" % a, "bystander not served after %s" % a)
+                    return
+                if a == "wrong-nonce":
+                    s.settimeout(client.WATCHDOG)
+                    try:
+                        data = s.recv(4096)
+                        while data and b"OK " not in data:
+                            more = s.recv(4096)
+                            if not more:
+                                break
+                            data += more
+                    except OSError:
+                        data = b""
+                    if b"OK " in data:
+                        violation("nonce-tcp:wrong-nonce-accepted", "a connection that presented a wrong nonce got as far as 'OK' in the handshake")
+                    else:
+                        part.count("nonce-tcp:wrong-nonce-turned-away")
+                try:
+                    s.close()
+                except OSError:
+                    pass
+        part.count("nonce-tcp:cases")
+        part.sig("nonce-tcp", tuple(sorted(set(wit["steps"]))))
+    except (client.Timeout, client.Closed) as e:
+        part.inconclusive.append("nonce-tcp case %d aborted: %s" % (cid, type(e).__name__))
+    finally:
+        for c in held:
+            try:
+                c.close()
+            except Exception:
+                pass
+        d.stop()
+        for cls, site, text in d.problems():
+            part.violation("%s:%s:%s" % (PROP, cls, site), "daemon reported %s (nonce-tcp part)" % cls, dict(wit, stderr=text[-2000:]))
+        shutil.rmtree(rundir, ignore_errors=True)
+
+
 def _worker(args):
+    if args[0] == "nonce":
+        _, seed, shard, count = args
+        part = report.Part()
+        b = build.build("asan", quiet=True)
+        base = tempfile.mkdtemp(prefix="verif-c10n-")
+        try:
+            for i in range(count):
+                nonce_case(b, os.path.join(base, "c%d" % i), gen.rng_for(seed, PROP, "nonce", shard, i), part, shard * 1000 + i)
+        finally:
+            shutil.rmtree(base, ignore_errors=True)
+        return part
     seed, shard, count = args
     part = report.Part()
     b = build.build("asan", quiet=True)
@@ -718,9 +885,16 @@ def run(tier, seed, replay=None, scale=1.0):
         return r.finish()
     total = int((128 if tier == "quick" else 4000) * scale)
     per = max(1, total // 16)
-    for part in report.run_sharded(_worker, [(seed, i, per) for i in range(16)]):
+    nn = max(1, int((32 if tier == "quick" else 800) * scale))
+    shards = [(seed, i, per) for i in range(16)] + [("nonce", seed, i, max(1, nn // 8)) for i in range(8)]
+    for part in report.run_sharded(_worker, shards):
         r.merge(part)
     if scale >= 1:
+        r.require("nonce-tcp:cases", 16)
+        r.require("nonce-tcp:well-behaved-client-served", 10)
+        r.require("nonce-tcp:wrong-nonce-turned-away", 5)
+        r.require("scenarios-with-tcp-listener", 15)
+        r.require("hostile-connections:tcp", 150)
         r.require("bystander-roundtrips", 1000)
         r.require("attack:corrupt", 300)
         r.require("attack:preauth", 50)
